@@ -177,8 +177,16 @@ fn api_prefix(id: u32) -> &'static str {
     P[(id as usize) % 8]
 }
 
+/// the block supplied by builder step `id`; heights and times include the boundary values
+/// (0, u64::MAX), the chain id carries the step's identity
 fn marked_block(id: u32) -> BlockInfo {
-    BlockInfo { height: id as u64, time: Timestamp::from_seconds(1_000_000 + id as u64), chain_id: format!("chain-{}", id) }
+    let height = [id as u64, 0, u64::MAX, 1][(id % 4) as usize];
+    let time = match (id / 4) % 3 {
+        0 => Timestamp::from_seconds(1_000_000 + id as u64),
+        1 => Timestamp::from_nanos(0),
+        _ => Timestamp::from_nanos(u64::MAX),
+    };
+    BlockInfo { height, time, chain_id: format!("chain-{}", id) }
 }
 
 // ---------------------------------------------------------------- observation
@@ -254,8 +262,8 @@ where
         "block".into(),
         if o.block_is_default {
             None
-        } else if blk == marked_block(blk.height as u32) {
-            Some(blk.height as u32)
+        } else if let Some(id) = blk.chain_id.strip_prefix("chain-").and_then(|n| n.parse::<u32>().ok()).filter(|id| blk == marked_block(*id)) {
+            Some(id)
         } else {
             Some(u32::MAX)
         },
@@ -533,8 +541,8 @@ fn check_wrapper(empty_ctor: bool, steps: &[WStep], cx: &mut Cx) -> Result<(), F
     ensure!(r == want_reply, "C20:wrapper-entry-point:reply", "reply dispatches to {:?}, last supplied {:?} (steps {:?})", r, want_reply, steps);
     // the same through an App: the wrapper is stored next to other wrappers that carry the same
     // checksum but no optional entry points (one of them a duplicated code); every supplied entry point must still be reachable
-    // layout 0: [decoy, wrapper]; layout 1: [decoy, duplicate of the decoy, wrapper, another decoy]
-    for layout in 0..2 {
+    // layout 0: [decoy, wrapper]; layout 1: [decoy, duplicate of the decoy, wrapper, another decoy];
+    for layout in 0..4 {
         let mut app = App::default();
         let owner = app.api().addr_make("owner");
         let mk_decoy = || {
@@ -548,7 +556,15 @@ fn check_wrapper(empty_ctor: bool, steps: &[WStep], cx: &mut Cx) -> Result<(), F
         if layout == 1 {
             ensure!(app.duplicate_code(decoy_id).is_ok(), "harness:duplicate-code", "duplicating a stored code failed");
         }
-        let id = app.store_code(Box::new(build_wrapper(empty_ctor, steps)));
+        // layout 2: stored under an explicitly chosen id; layout 3: stored on behalf of another creator
+        let id = match layout {
+            2 => match app.store_code_with_id(owner.clone(), 77, Box::new(build_wrapper(empty_ctor, steps))) {
+                Ok(id) => id,
+                Err(e) => fail!("C20:wrapper-in-app:store", "store_code_with_id(77) failed on an App with one code: {}", e),
+            },
+            3 => app.store_code_with_creator(owner.clone(), Box::new(build_wrapper(empty_ctor, steps))),
+            _ => app.store_code(Box::new(build_wrapper(empty_ctor, steps))),
+        };
         if layout == 1 {
             let _ = app.store_code(Box::new(mk_decoy()));
         }
